@@ -46,6 +46,9 @@ type c13Attempt struct {
 	During string `json:"during,omitempty"`
 	// Status: the code a "status" attempt is answered with (0 = 503); Prometheus accepts 200 only
 	Status int `json:"status,omitempty"`
+	// GiveUp (timeout kind): the Prometheus side hangs up before the proxy's own scrape has ended - its timer for the
+	// same scrape_timeout started earlier.  The attempt the proxy made is a failed attempt all the same.
+	GiveUp bool `json:"giveUp,omitempty"`
 }
 
 type c13Case struct {
@@ -53,7 +56,7 @@ type c13Case struct {
 }
 
 func recC13() *vkit.Recorder {
-	r := vkit.Rec("C13", "fault_enumeration", "sequences of scrape attempts through the real Proxy behind a real net/http server and client; failure kind x offset: transport error, non-200 status, timeout (body blocks until the scrape context ends), body error after k bytes (k over 0, 1, inside first line, block boundaries 4095/4096/65535/65536/65537, last byte, random), truncated gzip stream at k, stop-scrape reason, requests rejected before an attempt, API calls handled while the scrape is in flight (stop reason set / cleared, the same target list re-posted); success as control; oracle: failure => client sees status != 200 or a transport/body error, never a complete 200 with truncated content; status entry health/lastError truthful; scrape counter +1 per attempt on an assigned target; non-trivial = mid-body failure with k > 0 (response already started); distinct = digest of (kind, lines, offset, cut, assigned)")
+	r := vkit.Rec("C13", "fault_enumeration", "sequences of scrape attempts through the real Proxy behind a real net/http server and client; failure kind x offset: transport error, non-200 status, timeout (body blocks until the scrape context ends; in half of them the Prometheus side hangs up first, as its timer for the same scrape_timeout started earlier), body error after k bytes (k over 0, 1, inside first line, block boundaries 4095/4096/65535/65536/65537, last byte, random), truncated gzip stream at k, stop-scrape reason, requests rejected before an attempt, API calls handled while the scrape is in flight (stop reason set / cleared, the same target list re-posted); success as control; oracle: failure => client sees status != 200 or a transport/body error, never a complete 200 with truncated content; status entry health/lastError truthful; scrape counter +1 per attempt on an assigned target; non-trivial = mid-body failure with k > 0 (response already started); distinct = digest of (kind, lines, offset, cut, assigned)")
 	r.Assume("the Prometheus side is a standard net/http client; a scrape that fails must be visible to it as a non-200 status or as an error while reading the body")
 	return r
 }
@@ -150,9 +153,14 @@ func runC13(rec *vkit.Recorder, c *c13Case) []vkit.Violation {
 			n.post("/api/v1/shard/targets/", req)
 		}
 	}
-	srv := httptest.NewServer(n.proxy)
+	handled := make(chan struct{}, 16)
+	srv := httptest.NewServer(http.HandlerFunc(func(w http.ResponseWriter, r *http.Request) {
+		defer func() { handled <- struct{}{} }()
+		n.proxy.ServeHTTP(w, r)
+	}))
 	defer srv.Close()
 	cli := &http.Client{Timeout: 5 * time.Second, Transport: &http.Transport{DisableKeepAlives: true, DisableCompression: true}}
+	impatient := &http.Client{Timeout: 25 * time.Millisecond, Transport: &http.Transport{DisableKeepAlives: true, DisableCompression: true}}
 	var vs []vkit.Violation
 	add := func(key, f string, a ...interface{}) {
 		vs = append(vs, vkit.Violation{Key: key, Msg: fmt.Sprintf(f, a...)})
@@ -206,7 +214,14 @@ func runC13(rec *vkit.Recorder, c *c13Case) []vkit.Violation {
 		hreq.URL.Path = pu.Path
 		hreq.URL.RawQuery = pu.RawQuery
 		hreq.Host = pu.Host
-		resp, derr := cli.Do(hreq)
+		for len(handled) > 0 {
+			<-handled
+		}
+		doer := cli
+		if a.GiveUp && a.Kind == "timeout" {
+			doer = impatient
+		}
+		resp, derr := doer.Do(hreq)
 		var body []byte
 		var rerr error
 		code := 0
@@ -214,6 +229,12 @@ func runC13(rec *vkit.Recorder, c *c13Case) []vkit.Violation {
 			code = resp.StatusCode
 			body, rerr = ioutil.ReadAll(resp.Body)
 			_ = resp.Body.Close()
+		}
+		// the status is judged once the proxy has finished handling the request (it may outlive an impatient client)
+		select {
+		case <-handled:
+		case <-time.After(10 * time.Second):
+			add("C13/harness", "attempt %d (%+v): the proxy did not finish handling the request within 10s", i, a)
 		}
 		pl := c13Payload(a.Lines)
 		failed := a.Kind != "ok"
@@ -297,6 +318,9 @@ func runC13(rec *vkit.Recorder, c *c13Case) []vkit.Violation {
 		if !a.Assigned {
 			cls = append(cls, "unassigned-target")
 		}
+		if a.GiveUp && a.Kind == "timeout" {
+			cls = append(cls, "prometheus-hangs-up-before-the-real-scrape-ends")
+		}
 		rec.Eval(nt, vkit.Digest(a.Kind, a.Lines, a.Offset, a.Cut, a.Assigned), cls...)
 		if len(vs) > 0 {
 			break
@@ -321,6 +345,8 @@ func genC13(t *rapid.T) *c13Case {
 			timeouts++
 			if timeouts > 1 {
 				a.Kind = "body-error"
+			} else {
+				a.GiveUp = rapid.Bool().Draw(t, l+"-giveUp")
 			}
 		}
 		a.Lines = rapid.SampledFrom([]int{0, 1, 3, 40, 100, 1500, 3000}).Draw(t, l+"-lines")
